@@ -47,7 +47,10 @@ def _case(draw, tier):
         iters = draw(st.integers(2, 6))
         return {"part": "L", "loop": {"k": k, "form": "while", "gate": draw(st.sampled_from(["ifelse", "route"])), "exit": "END", "dopen": draw(st.booleans()), "limit": start + iters * step,
                                       "step": step, "start": start, "limit_input": draw(st.booleans()), "step_input": False, "acc": False, "nested": False, "limit_off": 0, "entry": 0},
-                "t": draw(st.integers(2, iters)), "order": draw(st.lists(st.integers(0, 9), min_size=10, max_size=10)), "sched": draw(st.lists(st.integers(0, 5), max_size=30))}
+                "t": draw(st.integers(2, iters)), "order": draw(st.lists(st.integers(0, 9), min_size=10, max_size=10)), "sched": draw(st.lists(st.integers(0, 5), max_size=30)),
+                # what fails: the first body node, or the GATE itself (a route gate with a fallback, raising a ValueError / TypeError
+                # subclass from its routing function); a pass-through node hands the caller's own seed object round the loop
+                "fail_gate": draw(st.sampled_from([None, None, "value", "type"])), "passthrough": draw(st.booleans())}
     topo = draw(gen.g1_nodes(3, 7, p_const=0.15))  # incl. completed outputs whose value is None / falsy
     depth = draw(st.sampled_from([0, 0, 1, 2, 3]))
     if depth:
@@ -193,10 +196,26 @@ def _part_loop(case, ev):
     L, t = case["loop"], case["t"]
     step, start, k = L["step"], L["start"], L["k"]
     v = start + (t - 1) * step  # value of i when iteration t begins
+    fail_gate = case.get("fail_gate")
+    if fail_gate:
+        L = {**L, "gate": "route"}
     gspec = loop_graph_spec(L, case["order"])
-    gspec = {**gspec, "nodes": [({**n, "fail": {"arg_in": [v]}} if n["name"] == "b0" else n) for n in gspec["nodes"]]}
+    failing = "g" if fail_gate else "b0"
+    new_nodes = []
+    for n in gspec["nodes"]:
+        if n["name"] == failing:
+            n = {**n, "fail": {"arg_in": [v]}}
+            if fail_gate:
+                n = {**n, "fail_exc": fail_gate, "targets": ["b0"], "fallback": "END", "expr": n["expr"].replace("else 'END'", "else None")}
+        new_nodes.append(n)
+    if case.get("passthrough"):
+        new_nodes.append({"k": "func", "name": "zt", "params": ["z", "i"], "defaults": {}, "outs": ["z"], "expr": "z"})
+    gspec = {**gspec, "nodes": new_nodes}
     vals = loop_values(L)
     want = {"i": v}
+    if case.get("passthrough"):
+        vals["z"] = ("seed-object",)
+        want["z"] = vals["z"]  # handed through by a node that completed (several times): a value like any other
     for j in range(k - 1):
         want[f"t{j}"] = ("t", j, v - step)  # produced in iteration t-1; iteration t got no further than its failing first node
     for runner in ("sync", "async", "sched"):
@@ -209,14 +228,14 @@ def _part_loop(case, ev):
             out = run_async(g, vals, error_handling="continue", **kw)
         else:
             out, _ = run_scheduled(ctx, g, vals, case["sched"], error_handling="continue", **kw)
-        tag = f"{runner} continue, loop k={k} gate={L['gate']}: b0 fails in iteration {t} (i={v})"
-        if out.status != "failed" or out.error is not ctx.injected.get("b0"):
+        tag = f"{runner} continue, loop k={k} gate={L['gate']}: {'the route gate (with a fallback) raises a ' + fail_gate + ' error subclass' if fail_gate else 'b0 fails'} in iteration {t} (i={v})"
+        if out.status != "failed" or out.error is not ctx.injected.get(failing):
             raise Violation("c11.not_failed_result", f"[{tag}] gave {out.brief()}", got=out.status, loop=True)
         got = {k_: v_ for k_, v_ in out.values.items() if k_ != "limit"}
         if got != want:
             diff = {k_: (J(got.get(k_, "<absent>")), J(want.get(k_, "<absent>"))) for k_ in set(got) | set(want) if got.get(k_, "<absent>") != want.get(k_, "<absent>")}
             raise Violation("c11.loop_partial_values", f"[{tag}] the iterations before it completed {J(want)}; the FAILED result holds (got, expected) {diff}", missing=any(k_ not in got for k_ in want), loop=True)
-    ev.case(case, True, ["part:L", f"k:{k}", "failing_iteration>=2"])
+    ev.case(case, True, ["part:L", f"k:{k}", "failing_iteration>=2"] + (["failing_gate_with_fallback"] if fail_gate else []) + (["seed_object_handed_through"] if case.get("passthrough") else []))
 
 
 def check_case(case, ev):
